@@ -213,6 +213,23 @@ func init() {
 	externals["fmt.Fprintln"] = func(m *Machine, fr *Frame, a []Value) Value {
 		return fwrite(m, fr, a[0], m.sprint(fr, a[1], true))
 	}
+	fmtInt := func(signed bool) ExtFn {
+		return func(m *Machine, fr *Frame, a []Value) Value {
+			t := a[0].(*smt.Term)
+			if !t.IsConst() {
+				// a number that is only printed (error texts, logs): an opaque placeholder naming the term
+				m.note("fmt-symbolic-arg")
+				return Str{S: fmt.Sprintf("<sym:%d>", t.ID)}
+			}
+			base := int(m.concInt(a[1], "base"))
+			if signed {
+				return Str{S: strconv.FormatInt(sext64(t.U, t.S.W), base)}
+			}
+			return Str{S: strconv.FormatUint(t.U, base)}
+		}
+	}
+	externals["strconv.FormatInt"] = fmtInt(true)
+	externals["strconv.FormatUint"] = fmtInt(false)
 	externals["strconv.Itoa"] = func(m *Machine, fr *Frame, a []Value) Value {
 		t := a[0].(*smt.Term)
 		if !t.IsConst() {
